@@ -320,8 +320,19 @@ func trailer(e *env, fn, ctor *core.Fn) ast.Expr {
 // received when the checksum was taken.
 func trailerByLayout(e *env, fn *core.Fn, key func(string) string) (ast.Expr, bool) {
 	c := e.c
+	// c01's interpreter follows helpers that receive sinks or return bytes; when it
+	// cannot follow this view of the program, the other view (helpers expanded in
+	// place / as written) describes the same bytes
 	lf, layout, cover, fresh, und := c01.DumpLayout(c)
-	if lf == nil || lf.Obj != fn.Obj || len(und) > 0 || layout == "" {
+	for _, other := range []*core.Program{c.Program.Inlined, c.Program.Orig} {
+		if (lf == nil || len(und) > 0 || layout == "") && other != nil {
+			this := c.Program
+			c.Program = other
+			lf, layout, cover, fresh, und = c01.DumpLayout(c)
+			c.Program = this
+		}
+	}
+	if lf == nil || lf.Obj.FullName() != fn.Obj.FullName() || len(und) > 0 || layout == "" {
 		return nil, false
 	}
 	info := fn.Pkg.TypesInfo
